@@ -52,6 +52,9 @@ type Scenario struct {
 	WriteErr      bool `json:"write_err,omitempty"`
 	// CancelBefore: the context is already cancelled when Do is called
 	CancelBefore bool `json:"cancel_before,omitempty"`
+	// DeadlineMs > 0: the caller's context carries a deadline this many milliseconds after the call starts
+	// (-1: a deadline that has already passed)
+	DeadlineMs int `json:"deadline_ms,omitempty"`
 	// NotConnected: network client without Connect / serial client with nil port
 	NotConnected bool `json:"not_connected,omitempty"`
 	NilRequest   bool `json:"nil_request,omitempty"`
@@ -200,6 +203,12 @@ func Run(sc Scenario) Outcome {
 	}
 	if sc.CancelBefore {
 		cancel()
+	}
+	if sc.DeadlineMs != 0 {
+		d := time.Duration(sc.DeadlineMs) * time.Millisecond
+		var dcancel context.CancelFunc
+		ctx, dcancel = context.WithDeadline(ctx, time.Now().Add(d))
+		defer dcancel()
 	}
 	type res struct {
 		resp packet.Response
